@@ -196,6 +196,10 @@ def run_case(idx, rng, P, rep):
                 hooks['raise_in'] = None
                 raise RuntimeError(f'{mname} failed')
         body.__name__ = mname
+        if rng.random() < 0.25:
+            # also run once at construction (that call is not part of any operation judged below)
+            rep.count('path_methods_with_on_init')
+            return param.depends(*deps, watch=True, on_init=True)(body)
         return param.depends(*deps, watch=True)(body)
     for mi, deps in enumerate(mspecs):
         ns[f'm{mi}'] = make(f'm{mi}', deps)
